@@ -2,6 +2,7 @@ package c12
 
 import (
 	"fmt"
+	"runtime/debug"
 	"sort"
 	"strings"
 
@@ -12,6 +13,7 @@ import (
 // failer is the common subset of *rapid.T and *testing.T the histories need to fail.
 type failer interface {
 	Fatalf(format string, args ...any)
+	Logf(format string, args ...any)
 	Helper()
 }
 
@@ -45,6 +47,22 @@ func (h *hist) fail(t failer, format string, args ...any) {
 	msg := fmt.Sprintf(format, args...)
 	stats.Violation(h.check, map[string]any{"config": h.config, "ops": append([]string(nil), h.ops...), "problem": msg})
 	t.Fatalf("%s [%s] after ops %v: %s", h.check, h.config, h.ops, msg)
+}
+
+// guard is deferred by every history: a panic inside the container under test (index out of range, nil
+// dereference, ...) is turned into an ordinary failure that carries the operation list, so the replay file is
+// self-contained. rapid's own control-flow panics (Fatalf, Skip, end of data) are passed through untouched.
+func (h *hist) guard(t failer) {
+	r := recover()
+	if r == nil {
+		return
+	}
+	if strings.HasPrefix(fmt.Sprintf("%T", r), "rapid.") || strings.HasPrefix(fmt.Sprintf("%T", r), "*rapid.") {
+		panic(r)
+	}
+	// the stack goes to the log only: failure messages must be identical when rapid re-runs a case
+	t.Logf("panic %v\n%s", r, debug.Stack())
+	h.fail(t, "the container panicked during or right after the last listed operation: %v", r)
 }
 
 // done reports the finished history to the case accounting.
